@@ -1088,6 +1088,12 @@ fn migration(ctx: &Ctx) -> (u64, u64) {
         ("copy_to_volatile_slice", 2, 10), ("array-copy_to_volatile_slice-u16", 2, 8),
         // descriptor reads: the kernel stores the bytes inside read(2), which is a scheduling point
         ("fd-read_volatile_from", 3, 6), ("fd-read_exact_volatile_from", 5, 8), ("fd-slice-read_volatile_from", 0, 4), ("fd-two-reads", 2, 9)] {
+      // the second thread: a fetch-and-clear consumer, or a thread that clears ANOTHER page of the
+      // same bitmap word (by number, or by address range) while the write marks its own
+      for second in 0..3usize {
+        if second != 0 && off + len > 12 {
+            continue;
+        }
         let stats = explore_seq(None, |ex| {
             let p = 4usize;
             let region = MmapRegionBuilder::new_with_bitmap(16, AtomicBitmap::new(16, NonZeroUsize::new(p).unwrap()))
@@ -1182,7 +1188,14 @@ fn migration(ctx: &Ctx) -> (u64, u64) {
                 }
             };
             let h2 = harvest;
-            let harvester: ThreadBody = Box::new(move || h2(&r2, &im2));
+            if second != 0 {
+                region.bitmap().set_bit(3);
+            }
+            let harvester: ThreadBody = match second {
+                0 => Box::new(move || h2(&r2, &im2)),
+                1 => Box::new(move || r2.bitmap().reset_bit(3)),
+                _ => Box::new(move || r2.bitmap().reset_addr_range(12, 4)),
+            };
             let res = run_threads(ex, vec![writer, harvester], 1000);
             if !res.ok() {
                 ctx.fail(&format!("C05/migration/{}/no-progress-or-panic", kind), &format!("{:?}", res.panics), json!({"kind": kind, "schedule": ex.current_choices()}));
@@ -1193,8 +1206,8 @@ fn migration(ctx: &Ctx) -> (u64, u64) {
             let mem = unsafe { std::slice::from_raw_parts(region.as_ptr(), 16) }.to_vec();
             let img = image.lock().unwrap().clone();
             if img != mem {
-                let key = format!("C05/migration/{}/changed-byte-never-reported-after-the-change", kind);
-                let rp = if ctx.has_failed(&key) { Value::Null } else { json!({"kind": kind, "offset": off, "len": len, "page_size": 4, "schedule": ex.current_choices(), "trace": res.normalized()}) };
+                let key = format!("C05/migration/{}/changed-byte-never-reported-after-the-change{}", kind, ["", " (another page of the word cleared by number meanwhile)", " (another page of the word cleared by range meanwhile)"][second]);
+                let rp = if ctx.has_failed(&key) { Value::Null } else { json!({"kind": kind, "offset": off, "len": len, "page_size": 4, "second_thread": (["fetch-and-clear consumer", "reset_bit(3)", "reset_addr_range(12, 4)"][second]), "schedule": ex.current_choices(), "trace": res.normalized()}) };
                 ctx.fail(&key, &format!("{} of {} bytes at {}: a consumer that copies every page reported by fetch-and-clear (once during, once after the write) holds {} but guest memory is {}", kind, len, off, hex(&img), hex(&mem)), rp);
                 return false;
             }
@@ -1202,6 +1215,7 @@ fn migration(ctx: &Ctx) -> (u64, u64) {
         });
         schedules += stats.executions;
         nodes += stats.nodes;
+      }
     }
     (schedules, nodes)
 }
@@ -1209,7 +1223,7 @@ fn migration(ctx: &Ctx) -> (u64, u64) {
 pub fn run(prop: &'static str, tier: Tier, replay: Option<String>) -> i32 {
     let ctx = crate::new_ctx(prop, tier, "model_checking", &replay);
     let thorough = tier.thorough();
-    ctx.set_rule("E1, one enumeration judged by two oracles. (A) tracked VolatileSlices (their bitmaps made directly or grown to size by enlarge, in turn; plain RefSlice, RefSlice at a base offset, nested BaseSlice, ArcSlice, Option Some/None) of 16 and 24 bytes x page sizes {1,2,3,4,5,8,16,N+5} x every derivation chain of up to 2 (thorough 3) links (subslice, offset, split_at either half, get_slice, get_ref->to_slice, get_array_ref->to_slice / ref_at->to_slice; arguments from the boundary alphabet of the page size) x every write and read path of the container alphabet through the derived accessor x start bitmaps clean / checkerboard / all dirty; (B) one mmap region and (C) guest memory with two adjacent regions and a hole, page sizes as above: every route of the byte-access interface at every (address, length), descriptor reads through the real raw-fd adapter over interposed read(2) (full, short, failing after touching a prefix, EINTR), descriptor writes out of guest memory over interposed write(2) (full, short, EIO at once, ENOSPC after a prefix, EINTR, accepting nothing: nothing may be marked), accessors derived through the region/memory API, and write;reset;write histories; all histories of 3 (thorough 5) steps over an alphabet of 18 memory / reset / harvest / reset-range / reset-bit operations with memory and bitmap carried over (also on containers of 136 / 200 / 528 bytes whose bitmaps span two or three 64-page words, with writes and resets straddling the word boundary); single transfers of 64 KiB .. 128 KiB+1 through nine routes into a tracked container of 256 KiB with 4096- and 1000-byte pages. C05: every byte that differs from the pre-operation snapshot must be dirty in the owning region's bitmap at the region's own offset, and over a history a page that was written stays dirty until an operation that names it clears it; plus (E3) all interleavings of one tracked write (20 write paths, incl. the typed and the slice-to-slice copies and reads from a real descriptor with read(2) as a scheduling point) with one fetch-and-clear consumer that copies the reported pages - after a final pass the consumer's image must equal guest memory. C16: dirty-after == dirty-before U pages overlapping the bytes the reference model says were written, and in the histories a reset / reset-range / fetch-and-clear leaves exactly the other pages dirty and reports exactly what was dirty (a failing descriptor read may additionally mark its whole target). State = (memory contents, dirty set); every transition runs on the real objects.");
+    ctx.set_rule("E1, one enumeration judged by two oracles. (A) tracked VolatileSlices (their bitmaps made directly or grown to size by enlarge, in turn; plain RefSlice, RefSlice at a base offset, nested BaseSlice, ArcSlice, Option Some/None) of 16 and 24 bytes x page sizes {1,2,3,4,5,8,16,N+5} x every derivation chain of up to 2 (thorough 3) links (subslice, offset, split_at either half, get_slice, get_ref->to_slice, get_array_ref->to_slice / ref_at->to_slice; arguments from the boundary alphabet of the page size) x every write and read path of the container alphabet through the derived accessor x start bitmaps clean / checkerboard / all dirty; (B) one mmap region and (C) guest memory with two adjacent regions and a hole, page sizes as above: every route of the byte-access interface at every (address, length), descriptor reads through the real raw-fd adapter over interposed read(2) (full, short, failing after touching a prefix, EINTR), descriptor writes out of guest memory over interposed write(2) (full, short, EIO at once, ENOSPC after a prefix, EINTR, accepting nothing: nothing may be marked), accessors derived through the region/memory API, and write;reset;write histories; all histories of 3 (thorough 5) steps over an alphabet of 18 memory / reset / harvest / reset-range / reset-bit operations with memory and bitmap carried over (also on containers of 136 / 200 / 528 bytes whose bitmaps span two or three 64-page words, with writes and resets straddling the word boundary); single transfers of 64 KiB .. 128 KiB+1 through nine routes into a tracked container of 256 KiB with 4096- and 1000-byte pages. C05: every byte that differs from the pre-operation snapshot must be dirty in the owning region's bitmap at the region's own offset, and over a history a page that was written stays dirty until an operation that names it clears it; plus (E3) all interleavings of one tracked write (20 write paths, incl. the typed and the slice-to-slice copies and reads from a real descriptor with read(2) as a scheduling point) with one fetch-and-clear consumer that copies the reported pages, or with a thread that clears another (pre-marked) page of the same bitmap word by number or by range - after a final pass the consumer's image must equal guest memory. C16: dirty-after == dirty-before U pages overlapping the bytes the reference model says were written, and in the histories a reset / reset-range / fetch-and-clear leaves exactly the other pages dirty and reports exactly what was dirty (a failing descriptor read may additionally mark its whole target). State = (memory contents, dirty set); every transition runs on the real objects.");
     ctx.assume("raw-pointer writes are exempt as documented; marks through a bare BaseSlice with wrapping offsets are outside both oracles");
     if ctx.replay_of.is_some() {
         println!("replay: the enumeration is deterministic; re-running the quick tier and reporting whether the recorded key fails again");
